@@ -54,6 +54,12 @@ def run(ctx):
         ins = vins + mins
         keyarg = (lambda t: t['args'][1]) if vins else (lambda t: t['args'][2])
         rec = [(bb, t) for bb, t in fb.calls() if (t.get('callee') or '').endswith('BuildSchema::append_schema')]
+        via_dup = False
+        if not rec:
+            # `entry.insert(from_idx(len)); self.build_duplicate::<T>()`: the recursion (and the key it returns, read from
+            # the same, not yet changed nodes.len()) is build_duplicate's
+            rec = [(bb, t) for bb, t in fb.calls() if strip_generics(cname(t)).endswith('SchemaBuilder::build_duplicate')]
+            via_dup = bool(rec)
         ok = len(ins) == 1 and len(rec) == 1 and fb.dominates(ins[0][0], rec[0][0])
         ctx.ob('REGFIRST', 'insert-dominates-recursion', ok, short_loc(fb.span), 'the key is inserted into already_built_types before T::append_schema runs: %s' % ok)
         okk = False
@@ -75,6 +81,11 @@ def run(ctx):
             inserted = [c for c in origin(fb, keyarg(ins[0][1])).calls if strip_generics(cname(c)).endswith('SchemaKey::from_idx')]
         ret_keys = [c for c in ro.calls if strip_generics(cname(c)).endswith('SchemaKey::from_idx')]
         okr = bool(ret_keys) and all(any(c is i_ for i_ in inserted) for c in ret_keys) and bool(stored) and not ro.has_arith()
+        if via_dup and not okr:
+            # returns what build_duplicate returns (the index the node took), with nothing appended to `nodes` between the
+            # registration and that call
+            pushes = [bb for bb, t in fb.calls() if call_matches(t, ['Vec::<T, A>::push']) or strip_generics(cname(t)).endswith('SchemaBuilder::reserve')]
+            okr = len(rec) == 1 and any(c is rec[0][1] for c in ro.calls) and bool(stored) and not ro.has_arith() and not pushes
         ctx.ob('REGFIRST', 'returns-registered-key', okr, short_loc(fb.span), 'returns the registered key (new) or the stored key (already built): %s' % okr)
         # keyed by the TypeLookup type id: every lookup / registration key comes from TypeId::of::<T::TypeLookup>()
         keyed = [(t, 1) for bb, t in fb.calls() if strip_generics(cname(t)).endswith(('HashMap::entry', 'HashMap::get', 'HashMap::insert', 'HashMap::contains_key')) and on_registry(t)]
